@@ -59,7 +59,7 @@ PLAIN = {'dict': dict, 'odict': OrderedDict, 'list': list, 'tuple': tuple, 'set'
 LOGGING = dict(PLAIN, dict=LogDict, odict=LogODict, list=LogList, tuple=LogTuple, obj=LogObj)
 
 from glom import SKIP, STOP
-SENT = {'SKIP': SKIP, 'STOP': STOP, 'TK': ('a', 'b')}      # TK: a compound (tuple) dict key
+SENT = {'SKIP': SKIP, 'STOP': STOP, 'TK': ('a', 'b'), 'BY': b'ab'}      # TK: a compound (tuple) dict key
 
 
 class Heap:
@@ -83,9 +83,17 @@ class Heap:
                 continue
             if isinstance(o, dict):
                 # OrderedDict keeps its own order list: dict.__setitem__ would bypass it
-                setitem = OrderedDict.__setitem__ if isinstance(o, OrderedDict) else dict.__setitem__
-                for k, v in items:
-                    setitem(o, self.val(k), self.val(v))
+                if isinstance(o, OrderedDict):
+                    # OrderedDict keeps its own order list (dict.__setitem__ would bypass it).  The entries are
+                    # inserted in reverse and then moved to the end one by one: the order of the OrderedDict is
+                    # the cell's order, while the raw order of the underlying dict is the opposite
+                    for k, v in reversed(items):
+                        OrderedDict.__setitem__(o, self.val(k), self.val(v))
+                    for k, v in items:
+                        OrderedDict.move_to_end(o, self.val(k))
+                else:
+                    for k, v in items:
+                        dict.__setitem__(o, self.val(k), self.val(v))
             elif isinstance(o, list):
                 for v in items:
                     list.append(o, self.val(v))
@@ -141,6 +149,8 @@ class Heap:
             return {'k': 'none'}
         if o is SKIP or o is STOP:
             return {'k': 'sent', 's': 'SKIP' if o is SKIP else 'STOP'}
+        if isinstance(o, bytes) and o == SENT['BY']:
+            return {'k': 'sent', 's': 'BY'}
         if isinstance(o, bool):
             return {'k': 'bool', 'b': o}
         if isinstance(o, int):
@@ -187,7 +197,7 @@ class Heap:
             o = self.objs[a]
             cls = self.cells[a - 1]['cls']
             if isinstance(o, dict):
-                items = [[self.project(k), self.project(v)] for k, v in dict.items(o)]
+                items = [[self.project(k), self.project(v)] for k, v in (OrderedDict.items(o) if isinstance(o, OrderedDict) else dict.items(o))]
             elif isinstance(o, (set, frozenset)):
                 items = sorted((self.project(v) for v in o), key=repr)
             elif isinstance(o, (list, tuple)):
